@@ -35,18 +35,22 @@ def key_fn(case, obs, verdict):
 
 
 RULE = ("non-trivial: the implementation released at least 2 tokens and the profile is not a flat rate over a whole "
-        "number of seconds (steps always count; conc cases additionally need >= 2 goroutines, list cases >= 2 parts); distinct = distinct case lines")
+        "number of seconds (steps always count; conc cases additionally need >= 2 goroutines, list cases >= 2 parts, fact cases >= 2 products each non-trivial); distinct = distinct case lines")
 BRIDGES = ["Gen/Sched_bridge.v"]
 # float rounding bound (Flocq): statements only, proofs in Proofs/SchedFloat*.v (built once, cached)
 FLOAT = ["Properties/C01_float.v"]
 # list profiles; step / list profiles shared by several consumers (through property C02's concurrent model of composite.go)
 SHARED = ["Properties/C01_shared.v"]
+# products of the pool's rps factory (rps-per-instance): each realises the profile (over property C02's factory model)
+FACTORY = ["Properties/C01_factory.v"]
 TRUSTED = [
     "translator harness/cmd/translate sched (go/ast over NewConst, constDoAt, NewLine, lineDoAt, NewOnce, NewStep -> arithmetic AST of "
     "Model/SchedExpr.v; local definitions inlined, integer vs float division decided from the declared parameter types)",
     "extraction: ExtrOcamlBasic only; OCaml driver ocaml/C01/main.ml + ocaml/common/conv.ml (zarith for decimal I/O); the driver applies the "
     "float64 tolerance of DESIGN.md section 3 (1 ns + D*2^-40 on instants, relative 2^-40 on the integral before rounding down)",
-    "correspondence harness harness/cmd/hC01 (real schedule.NewConstConf/NewLineConf/NewStepConf/NewOnceConf, Start, Next, Left; conc cases: G goroutines released by a spinning barrier drain a fresh un-Started schedule, many rounds, wall-clock comparisons reduced to 0/1 flags; list profiles = schedule.NewCompositeConf of real parts; meet mode wraps the first part so that its first G Next calls wait for each other)",
+    "correspondence harness harness/cmd/hC01 (real schedule.NewConstConf/NewLineConf/NewStepConf/NewOnceConf, Start, Next, Left; conc cases: G goroutines released by a spinning barrier drain a fresh un-Started schedule, many rounds, wall-clock comparisons reduced to 0/1 flags; list profiles = schedule.NewCompositeConf of real parts; meet mode wraps the first part so that its first G Next calls wait for each other; fact cases: the rps section (single profile / list form) rendered as a generic config value, "
+    "decoded with rps-per-instance by the real core/config + plugin registry (coreimport.Import) into engine.InstancePoolConfig, NewRPSSchedule called K >= 2 times, the products "
+    "drained alternately / one after the other / in reverse order, each judged by spec_b / list_spec_b on its own)",
     "float64 rounding: PROVED within the driver's tolerance (Properties/C01_float.v, Flocq binary64 = FLT(-1074,53), round to nearest even) for "
     "const profiles (instants and count, rate = configured rational rounded once to float64, guard 2^-20 <= ops <= 2^40, D <= 2^62, k < 2^53), for "
     "the count of every non-flat line with binary64 rates, for the instants of increasing lines (incl. the cancellation term D*kappa*2^-48; slope guard "
@@ -56,6 +60,8 @@ TRUSTED = [
     "modelled, not verified: int64 overflow of token counts beyond 2^63 (C01_float bounds the converted values inside int64 under I <= 2^62); "
     "do_at.go / step.go loop / composite sequencing and the concurrent sections of composite.go (Model/SchedConc.v, shared with C02; used by C01_shared*) "
     "are hand-modelled (tied by the correspondence run, the step loop header also by the translator)",
+    "C01_factory_*: the factory model (Model/SchedFactory.v, shared with C02) is store-free: a factory call = the constructors run again; that the real registry hands out "
+    "products sharing no nested schedule is object identity, tied by the fact cases of the correspondence run only",
     "C01_closed_form: Coq Reals axioms ClassicalDedekindReals.sig_forall_dec, sig_not_dec, FunctionalExtensionality.functional_extensionality_dep; "
     "C01_float_*: the same three plus Classical_Prop.classic (through Flocq)",
 ]
@@ -89,11 +95,11 @@ def run(ctx):
     ok_t = common.translate(ctx, "sched", "SchedGen.v")
     model_ok = ctx.coq(["Extract/Extract%s.vo" % ctx.prop], what="model+extraction")
     if model_ok and ok_t:
-        ctx.properties(extra_files=BRIDGES + FLOAT + SHARED)
+        ctx.properties(extra_files=BRIDGES + FLOAT + SHARED + FACTORY)
     elif model_ok:
         # Gen/SchedGen.v is stale: nothing about the current source can be discharged
         import os
-        files = [os.path.join(common.COQ, "Properties", "C01.v")] + [os.path.join(common.COQ, f) for f in BRIDGES + FLOAT + SHARED]
+        files = [os.path.join(common.COQ, "Properties", "C01.v")] + [os.path.join(common.COQ, f) for f in BRIDGES + FLOAT + SHARED + FACTORY]
         ctx.statements = [(k, n, os.path.relpath(f, common.COQ)) for f in files for (k, n) in common.count_statements(f)]
         ctx.obligations = len(ctx.statements)
         ctx.discharged = 0
@@ -112,7 +118,7 @@ def run(ctx):
         ck = ctx.coqchk()
         if ck:
             cov.update(ck)
-            for extra in ("C01_float", "C01_shared"):
+            for extra in ("C01_float", "C01_shared", "C01_factory"):
                 ck2 = coqchk_extra(ctx, extra)
                 if ck2:
                     cov["coqchk_axioms"] = sorted(set(cov.get("coqchk_axioms", [])) | set(ck2["coqchk_axioms"]))
